@@ -1290,6 +1290,22 @@ func planC03(tier string, seed int64) (*Plan, error) {
 			}
 		}
 	}
+	// every named character reference of length 2..kmax (the name is symbolic over letters and digits: the lookup in
+	// the HTML5 entity table forks per entity of that length), in text, in an image alt/title and in an info string
+	entAlpha := "abcdefghijklmnopqrstuvwxyzABCDEFGHIJKLMNOPQRSTUVWXYZ0123456789"
+	kmax := 8
+	if thorough {
+		kmax = 14
+	}
+	entCtx := [][2]string{{"a &", "; b"}, {"![&", ";](u \"&amp;\")"}, {"[a](u '&", ";')"}, {"```&", ";\nc\n```"}}
+	for k := 2; k <= kmax; k++ {
+		for ci, cx := range entCtx {
+			if !thorough && k > 5 && (k+ci)%2 == 1 {
+				continue
+			}
+			jobs = append(jobs, job("H_c03_safe", "cfg", []string{core, coreX, all}[(k+ci)%3], "n", k, "pre", cx[0], "post", cx[1], "alpha", entAlpha))
+		}
+	}
 	for _, sd := range []string{"x[^1] y[^1]\n\n[^1]: f <b> \"q\"\n", "| a | b |\n|:-|-:|\n| http://x.y | x-y://z |\n"} {
 		for q := 0; q < len(sd); q += 3 {
 			jobs = append(jobs, job("H_c03_safe", "cfg", []string{optA, optB}[q%2], "seed", sd, "pos", q, "window", 1))
@@ -1319,6 +1335,7 @@ func planC03(tier string, seed int64) (*Plan, error) {
 	p.Jobs = jobs
 	b["typographer variants"] = fmt.Sprintf("Typographer with the angle-quote / dash+ellipsis / quote substitutions disabled (nil): %d templates with 2-byte windows, S(2), S(4,{<,>,-,.,',\",a})", len(typoT))
 	b["attack templates"] = fmt.Sprintf("%d templates (image alt/src/title, link destination/title, autolinks, {#id .class k=v data-*} attribute blocks on ATX and Setext headings, info strings, table cells, footnote labels and bodies, definition terms, typographer, task lists, linkify, entities, raw HTML, reference labels/titles) with a 2-byte fully symbolic window x %v (thorough: 3-byte windows on the first 20)", len(c03Templates), tc)
+	b["named references"] = fmt.Sprintf("& + a symbolic name of 2..%d letters/digits + ; in paragraph text, image alt, link title and fenced-code info string: one path per entity of that length in goldmark's HTML5 table (plus the no-such-entity path)", kmax)
 	b["configurations"] = "safe mode only: " + fmt.Sprint(cfgs) + "; the last two configure the Footnote, Linkify and Table extensions with their options (footnote/linkify/table families and two seeds with a sliding symbolic byte under them)"
 	p.Bounds = b
 	p.Assumptions = []string{"XML well-formedness is checked structurally (nesting, quoting, void elements written ' />', no '<' in attribute values, no duplicate attribute, every attribute has a value); character validity and named-entity declarations (XHTML DTD) are assumed, as the property allows ('whenever all its characters are representable')"}
@@ -1712,6 +1729,14 @@ func planC16(tier string, seed int64) (*Plan, error) {
 		add(fn, "pppp", "ttt", 1, "abc")
 		add(fn, "ppp", "ttt", 2, "ab")
 	}
+	// many references of one footnote (reference ids carry a per-footnote counter: fnref:1, fnref1:1, ... fnref10:1)
+	nrefs := 13
+	if thorough {
+		nrefs = 40
+	}
+	for n := 0; n <= nrefs; n++ {
+		jobs = append(jobs, job("H_c16_footnotes", "cfg", []string{fn, fnX}[n%2], "rep", "a[^1] ", "repn", n, "seed", "b[^2]\n\n[^1]: f\n\n[^2]: g\n", "pos", 3, "window", 1))
+	}
 	// free-form: token sequences and short inputs
 	toks := []string{"[^a]", "[^b]", "[^a]: ", "[^b]: ", "\n\n", "x", "![", "](u)"}
 	nt := 5
@@ -1735,6 +1760,7 @@ func planC16(tier string, seed int64) (*Plan, error) {
 	p.Bounds = map[string]interface{}{
 		"T(fn)":     "1-2 references (thorough: 3) in every combination of placements {paragraph, emphasis, link text, image alt, table body cell, surplus table cell, header cell, cell of a short row, strikethrough, code span, block quote, heading, body of definition 0, body of a never-referenced definition} x 1-3 definitions at top level / in a quote / in a list item; reference and definition labels are symbolic 1-byte strings over {a,b,1} (2-byte over {a,b} and {a,^} for some), so which reference hits which definition, duplicates and misses are decided by the solver; up to 4 references of one definition",
 		"free-form": fmt.Sprintf("every sequence of %d tokens from %q; S(2) all extensions", nt, toks),
+		"many refs": fmt.Sprintf("one footnote referenced n times for every n in 0..%d next to a second footnote whose label byte is symbolic", nrefs),
 		"id prefix": "16 placement combinations under WithFootnoteIDPrefix (with link/back-link titles, classes and back-link HTML templates) and WithFootnoteIDPrefixFunction; the prefix is stripped from ids and fragment links before the same oracle is applied",
 		"W(C_fn,1)": fmt.Sprintf("%d seeded (document of extension/_test/footnote.txt, offset) pairs with one symbolic byte (thorough: every offset)", nwin),
 		"oracle":    "from the tokenised output: li ids are fn:1..fn:n in order; each sup id fnref[K]:j contains a link to #fn:j showing j, and item j exists; every back-link targets an existing sup id of its own item, no two the same, every sup id is targeted; all generated ids distinct; a definition whose label no reference spells leaves no trace of its body",
@@ -2012,6 +2038,23 @@ func planC02(tier string, seed int64) (*Plan, error) {
 	for n := 2; n <= nc; n++ {
 		jobs = append(jobs, job("H_c02_codespan", "n", n))
 	}
+	// which list items may interrupt a paragraph (5.2/5.3)
+	nint := 0
+	for ind := 0; ind <= 3; ind++ {
+		for _, z := range []int{0, 1, 2, 4, 8} {
+			for val := 1; val <= 2; val++ {
+				for empty := 0; empty <= 1; empty++ {
+					if !thorough && (ind+z+val+empty)%2 == 1 && !(ind == 0 && empty == 0) {
+						continue
+					}
+					jobs = append(jobs, job("H_c02_interrupt", "kind", 0, "zeros", z, "val", val, "empty", empty, "ind", ind))
+					nint++
+				}
+			}
+		}
+		jobs = append(jobs, job("H_c02_interrupt", "kind", 1, "empty", 0, "ind", ind), job("H_c02_interrupt", "kind", 1, "empty", 1, "ind", ind))
+		nint += 2
+	}
 	// HTML block start/end conditions (CommonMark 4.6): see harness/h/c02ref.go
 	nhtml := 0
 	for ind := 0; ind <= 3; ind++ {
@@ -2079,6 +2122,7 @@ func planC02(tier string, seed int64) (*Plan, error) {
 		"refdef":     fmt.Sprintf("%d link reference definition boundary shapes (4.7): whitespace between colon and destination {space, line ending, line ending + 2 spaces, none} x destination {bare, <...>} x title {none; \" ' ( delimited, on one or two lines, separated by a space / a line ending / a line ending and a space} x trailer {nothing, a space, more text}, optionally paragraph text directly behind the definition (indented 0, 1, 3, 4 spaces or a tab), followed by a shortcut reference; label, destination, title and trailer letters symbolic; expected: definition with title / definition without title plus a paragraph / no definition, from 4.7", nref),
 		"emphasis":   fmt.Sprintf("one-line paragraphs of length 1..%d with every byte symbolic over {*, _, space, '.', ',', '!', a-z} (no leading/trailing space, some non-delimiter character, not starting with a bullet marker), and of length 7 over {*,a}, %d over {*,_,a,space}, %d over {_,a,.} (thorough adds 10 over {*,a}, 8 over {*,_,a}); expected HTML from a reference implementation, in the harness, of the specification's delimiter-run classification and 'process emphasis' procedure", ne, ne+1, ne+2),
 		"code spans": fmt.Sprintf("one paragraph of length 2..%d with every byte symbolic over {backtick, space, LF, a-z} (no blank line, no line starting/ending with a space, no line starting with three backticks); expected HTML from a reference implementation of 6.1 in the harness", nc),
+		"interrupt":  fmt.Sprintf("%d shapes of a list item directly behind a paragraph line: ordered markers whose number is 1 or 2 spelled with 0, 1, 2, 4 or 8 leading zeros (delimiter symbolic), bullets * + (symbolic), with and without content, indented 0-3: only a non-empty item that is a bullet or starts at 1 interrupts the paragraph", nint),
 		"html":       fmt.Sprintf("%d HTML block shapes (4.6): start conditions 1-7 (type 1: every pair of opening and closing name from pre/script/style/textarea; type 6: 12 block tag names, opening and closing form; type 7: an unknown tag alone on its line), 0-3 columns of indentation, end condition on the first line or on a later line, text behind the end condition, a blank line for types 6-7; the letter case of the first, middle and last tag-name letter is symbolic, the other letters lower or upper case; content letters symbolic", nhtml),
 		"spec":       fmt.Sprintf("%d examples of _test/spec.json (expected HTML from the file): final newline removed; an unrelated paragraph / ATX heading / thematic break with symbolic letters placed before; and, for the %d examples whose expected HTML ends in a closed block (p, h1-6, hr, blockquote, ul, ol), an extra final newline and the same unrelated block placed after; %d examples end in a code or HTML block and are skipped for the 'after' rewrites by that stated rule", nspec, nspec-nskip, nskip),
 		"comparison": "byte equality after deleting newlines directly behind '>' or directly in front of '<' and trailing newlines (a subset of what the specification's own normaliser ignores)",
